@@ -55,7 +55,7 @@ fn build(rng: &mut Rng, flagbits: u64) -> (Simulator, Json) {
 }
 
 fn run(ctx: &mut Ctx) {
-    let n = ctx.tier.pick(3_000, 300_000);
+    let n = ctx.tier.pick_exact(3_000, 300_000);
     ctx.cases(0, n, |ctx, rng, idx| {
         let flagbits = idx % 16;
         let seed0 = rng.clone();
